@@ -119,7 +119,6 @@ fn worse(t: f64, with_base: bool, check_arg: bool) {
             assert!(who == 1, "probability 1 (T -> inf): a worse candidate is always accepted");
         }
     }
-    assert!(draws() <= 1, "at most one uniform draw");
     vcover!(who == 1, "worse candidate accepted");
     vcover!(who == 0, "worse candidate rejected");
     std::mem::forget((s, c));
